@@ -21,6 +21,10 @@ class CachedDataset(Dataset):
     def __getattr__(self, item):
         if item == "dataset":
             return getattr(super(), item)
+        if item == "__getitems__":
+            # same as in ModeWrapper: datasets like torch.utils.data.Subset implement __getitems__ -> forwarding it makes the
+            # fetcher of the DataLoader call the wrapped dataset directly (bypassing cache and transform) -> disable batched getitems
+            return None
         return getattr(self.dataset, item)
 
     def _cached_getitem(self, index):
